@@ -204,6 +204,10 @@ def generate(tier, seed):
     for length in (1, 2, 3, 4):
         for first in range(maxv + 1):
             yield "block", {"length": length, "first": first, "maxv": maxv}, True
+    # deep repertoires: tens and hundreds of thousands of singletons / doubletons (powers of f1 beyond 2^63)
+    for vec in ([60000, 20000, 5], [548953, 6693, 800, 99], [100000, 1, 1], [55109, 2, 0, 7], [70000, 9000, 700], [46341, 46341], [3037000500, 3, 1],
+                [1, 60000, 3], [0, 70000], [250000, 0, 4], [65536, 65536, 65536]):
+        yield "vector", {"vec": vec}, True
     for i in range(400 * TS if thorough else 40):
         L = rng.randint(1, 12)
         vec = [rng.randint(0, 10 ** rng.randint(1, 6)) for _ in range(L)]
